@@ -3,7 +3,8 @@ import steps_C13
 
 ID = "C13"
 PROP = {
-    "modules": ["Gnmi.Props.C13", "Gnmi.Props.C13Prog", "Gnmi.Props.C13Shared"],
+    "modules": ["Gnmi.Props.C13", "Gnmi.Props.C13Prog", "Gnmi.Props.C13Shared", "Gnmi.Props.C13Hops",
+                "Gnmi.GenProps.ManagerCreateConn"],
     "theorems": ["Gnmi.C13." + t for t in [
         "trace_in_discipline", "trace_state", "trace_shape", "attempt_trace_facts", "attempt_trace_connect", "updates_in_stream_order", "exec_reachable", "reconnect_effective",
         "silence_after_remove", "silent_step", "remove_unregisters", "one_monitor_per_name",
@@ -22,9 +23,25 @@ PROP = {
         # targets sharing an address: the manager LTS composed with the connection-manager LTS (C16)
         "step_req", "PReach.mgr", "PReach.conn", "pinv_init", "pinv_step", "pinv_reach",
         "shared_never_closed_while_held", "sharers_share_one_connection",
-        "failed_shared_dial_forgotten", "retry_after_failed_shared_dial_dials_afresh"]],
+        "failed_shared_dial_forgotten", "retry_after_failed_shared_dial_dials_afresh"]] + ["Gnmi.C13Hops." + t for t in [
+        # createConn's next-hop loop, uniqueNextHops, customizeRequest, Config.Timeout (Model/ManagerHops.lean)
+        "uniqueNextHops_spec", "nextHopOf_spec",
+        "createConn_first_success", "createConn_success_calls", "createConn_each_hop_once", "createConn_all_fail",
+        "createConn_ctx_between_hops", "createConn_ledger", "createConn_defers", "createConn_success_ctx_cancelled",
+        "createConn_slow_hop", "loop_ending",
+        "hstep_refines", "HReach.greach", "HReach.reach", "hinv_init",
+        "hops_acquire_only_on_success", "hops_ledger", "hops_held_le_one", "hops_released_when_idle",
+        "hops_release_once", "hops_trace_in_discipline", "hops_each_hop_once", "hops_no_call_after_success",
+        "hops_defers",
+        "customizeRequest_spec",
+        "hopNext_sound", "hopNext_progress", "hopRun_returns", "hopRun_createConn", "hopRun_run", "dial_returns",
+        "cancelled_leads_to_new_attempt", "reconnect_leads_to_new_attempt_partial", "timeout_leads_to_new_attempt_partial"]] + [
+        # the model's createConn loop = the loop body regenerated from manager.go, folded over the hops (docs/GEN_TIE.md)
+        "Gnmi.GenProps.ManagerCreateConn." + t for t in ["tie_loop", "tie_createConn", "tie_defer"]],
     "components": [
         {"c": "mg", "quick": {"n": 120, "exhaustive": True}, "thorough": {"n": 1000, "exhaustive": True, "seeds": 3}},
+        # createConn / uniqueNextHops / customizeRequest through their seams, and whole sessions with Config.Timeout
+        {"c": "mh", "quick": {"n": 25, "exhaustive": True}, "thorough": {"n": 300, "exhaustive": True, "seeds": 3}},
     ],
     "extra": [steps_C13.race_run],
     "monitor": "spec",
@@ -36,12 +53,17 @@ PROP = {
         "connection-manager LTS Model/ConnLTS.lean for the target's address; monitor's deferred done is that requester's done) as a description "
         "of manager.go + connection.go together; validated by the `mg shared` scenarios (real manager.Manager on the real connection.Manager, "
         "2-3 targets on one address, joint first dial refused / cancelled), not proved",
+        "createConn's next-hop loop: the hop-level LTS of Model/ManagerHops.lean (one `select` and one Connection call per "
+        "transition; every Connection call returns; a Go map iteration = some duplicate-free order of the key set) is PROVED to "
+        "refine the manager LTS (Props/C13Hops.lean); that it describes manager.go's createConn / uniqueNextHops / customizeRequest "
+        "is validated by the mh correspondence (the three functions through add-only seams on scripted ConnectionManagers, and "
+        "whole sessions of the real Manager with Config.Timeout set, also on the real connection.Manager), not proved",
     ],
     "assumptions": ["Recv returns an error once the stream's context is cancelled (gRPC contract)",
                     "user callbacks terminate and do not call back into the Manager",
                     "backoff delays are positive (cenkalti/backoff)"],
     "manifest": {
-        "level_text": "Lean 4 theorems about a labelled transition system of manager.go (retryMonitor / monitor / handleUpdates program counters, Add / Remove / Reconnect callers, receive-timeout goroutine, the manager mutex) for every environment script and every interleaving; tied to the code by a correspondence check that drives the real manager.Manager over bufconn gRPC links to a scripted gNMI server and compares callback traces with the model's sequential schedule. Progress is proved in run form (Props/C13Prog.lean): an attempt is a finite path of the goroutine's own steps to the next attempt; a fired receive timeout / forced Reconnect leads to exactly one Reset and a new attempt (exactly one under every schedule); a managed target has an enabled step of its own except when it legitimately waits on a silent stream without receive timeout; n further attempts for every n.",
+        "level_text": "Lean 4 theorems about a labelled transition system of manager.go (retryMonitor / monitor / handleUpdates program counters, Add / Remove / Reconnect callers, receive-timeout goroutine, the manager mutex) for every environment script and every interleaving; tied to the code by a correspondence check that drives the real manager.Manager over bufconn gRPC links to a scripted gNMI server and compares callback traces with the model's sequential schedule. Progress is proved in run form (Props/C13Prog.lean): an attempt is a finite path of the goroutine's own steps to the next attempt; a fired receive timeout / forced Reconnect leads to exactly one Reset and a new attempt (exactly one under every schedule); a managed target has an enabled step of its own except when it legitimately waits on a silent stream without receive timeout; n further attempts for every n. createConn's next-hop loop (Props/C13Hops.lean, Model/ManagerHops.lean): the loop over uniqueNextHops as a function (first success in iteration order, each hop once, all fail, cancelled between hops, the deferred cancels of the Config.Timeout contexts, the hop outcome timedOut) for every address list / outcome script / order, as a hop-level LTS proved to refine the manager LTS (so every theorem above holds of multi-hop targets), customizeRequest (prefix.target := name on a clone; the configured request is not written to), and timeout_leads_to_new_attempt_partial / reconnect_leads_to_new_attempt_partial (with m.mu free): the next attempt's multi-hop dial returns; tied to the code by the mh correspondence.",
         "level_note": "Proof of the protocol LTS; real timers/gRPC are exercised, not proved. Trusted: Lean kernel, the hand-written LTS as validated by the mg correspondence, Go runtime, gRPC.",
         "technique": "Lean 4 proof (inductive invariant of an LTS) + scripted-collaborator correspondence on the real goroutines",
         "design_ref": "DESIGN.md §8 C13, Appendix E.3",
